@@ -53,6 +53,46 @@ def streams(rng, tier, ctx):
                 H.finish(sim, drain=True, max_ticks=200)          # otherwise: cut off mid-transfer
             cid = "h%d" % i
             cases.append((cid, wrap(sim.ops))); meta[cid] = sim
+        # a peer that violates the parent-lead rules: a complete packet that can never be delivered (it claims a channel parent
+        # that does not exist) is passed by the receive window, and its window slot is used again one window later - the payload
+        # of the skipped packet must be released like any other
+        codec = Interactive("codec")
+        try:
+            for i in range(3 if tier == "quick" else 40):
+                r = rng.fork()
+                it.op("=== genx%d" % i)
+                cfg = pick_cfg(r); W = r.pick([4, 4, 8]); cfg["pw"] = W
+                cfg["allocA"] = cfg["allocB"] = 1_000_000
+                sim = Sim(r, cfg, inter=it)
+                sim.tick += 1; sim.set_time(5_000_000)
+                pr = sim.probe("B")
+                pb = int(pr["pr"][0]); fb = int(pr["aq"][0])
+                ca, cb = r.pick([(1, 0), (0, 2), (3, 1)])
+                fid = [fb]
+                def inject(seq, chan, wpl, cpl, ln):
+                    txt = "data %d 0 1 %d %d %d %d 0 0 %s" % (fid[0] & 0xFFFFFFFF, (pb + seq) & 0xFFFFF, chan, wpl, cpl, "@%d:%d" % (700 + seq + 50 * i, ln))
+                    fid[0] += 1
+                    hx = codec.op("enc " + txt)
+                    if len(hx) > 20:
+                        sim.op("B raw " + hx)
+                rounds = r.range(1, 3)
+                base = 0
+                for _ in range(rounds):
+                    inject(base + 0, ca, 0, 0, r.pick([10, 300]))
+                    inject(base + 1, ca, 0, 0, r.pick([10, 300]))
+                    inject(base + 2, cb, 1, 2, r.pick([1000, 1448, 100]))       # complete, but waits for a channel parent that never existed
+                    sim.op("B step"); sim.op("B recv")
+                    for k in range(3, W + 3):                                     # the next window's worth of packets reuses every slot
+                        inject(base + k, ca, 0, 0, r.pick([10, 500]))
+                        if r.chance(1, 2):
+                            sim.op("B step"); sim.op("B recv")
+                    sim.op("B step"); sim.op("B recv")
+                    base += W + 3
+                sim.op("B flush"); sim.probe("B")
+                cid = "x%d" % i
+                cases.append((cid, wrap(sim.ops))); meta[cid] = sim
+        finally:
+            codec.close()
     finally:
         it.close()
     out = [{"name": "hc_sessions", "mode": "hc", "cases": cases, "meta": meta, "case_timeout": 240}]
